@@ -15,7 +15,7 @@ ASSUMPTIONS = [
     'foreign files and their expected records are produced by a generator written from docs/spec (harness/props/c03.py + harness/specdoc.py), independent of pydiffx',
     'CPython codecs / json are environment',
 ]
-ENC = ['utf-8', 'utf-16', 'latin1', 'utf-32-be', 'utf-16-le', 'cp1252', 'UTF-8', 'utf_16']
+ENC = ['utf-8', 'utf-16', 'latin1', 'utf-32-be', 'utf-16-le', 'cp1252', 'UTF-8', 'utf_16', 'cp037', 'cp500']
 
 
 def gen_foreign(rng):
